@@ -192,12 +192,13 @@ def history_program(rng, length, lanes=ALL_LANES, nkeys=6, ndata=5, removal_weig
             rr = rng.random()
             if rr < 0.55:
                 prog["steps"].append({"op": "remove", "lane": lane, "key": k,
-                                      "variant": rng.choice(["plain", "opts", "index_delete"])})
+                                      "variant": rng.choice(["plain", "opts", "opts", "index_delete"]),
+                                      "resets": rng.choice([0, 0, 1, 2])})
             elif rr < 0.75 and addrs:
                 a, d = rng.choice(sorted(addrs))
                 prog["steps"].append({"op": "remove_hash", "lane": lane, "sri": [{"a": a, "d": d}]})
             elif rr < 0.92 and bulk:
-                prog["steps"].append({"op": "remove_fully", "lane": lane, "key": k})
+                prog["steps"].append({"op": "remove_fully", "lane": lane, "key": k, "resets": rng.choice([0, 0, 1, 2])})
             elif bulk:
                 prog["steps"].append({"op": "clear", "lane": lane})
             else:
@@ -294,7 +295,7 @@ def _mk_data(prog, rng, n):
 
 
 def write_steps(rng, prog, lane, d, n, algo, key=None, how="oneshot", chunks=None, opts=None,
-                alias="w", all_=True, explicit_algo=True):
+                alias="w", all_=True, explicit_algo=True, foreign_cwd=False):
     """steps that store blob d (length n) through one entry point"""
     st = []
     if how == "oneshot":
@@ -307,6 +308,20 @@ def write_steps(rng, prog, lane, d, n, algo, key=None, how="oneshot", chunks=Non
     o = dict(opts or {})
     if explicit_algo or algo != "sha256":
         o["algo"] = algo                    # (otherwise: the algorithm is left to its default)
+    if rng.random() < 0.15:
+        # option setters called twice: an earlier call with another value, then the real one
+        dec = {}
+        if "algo" in o:
+            dec["algo"] = rng.choice([a for a in ALGOS if a != o["algo"]])
+        if o.get("size") is not None:
+            dec["size"] = o["size"] + rng.choice([1, 4096, 2 * MIB])
+        if o.get("time") is not None:
+            dec["time"] = "12345"
+        if "meta" in o:
+            dec["meta"] = {"decoy": True}
+        if o.get("raw") is not None:
+            dec["raw"] = {"hex": "00ff"}
+        o["decoy"] = dec
     s = {"op": "open_writer", "lane": lane, "opts": o, "as": alias, "plan": d, "via": "opts"}
     if how == "create" and key and algo == "sha256":
         s["via"] = "create"
@@ -325,6 +340,12 @@ def write_steps(rng, prog, lane, d, n, algo, key=None, how="oneshot", chunks=Non
         w = {"op": "w_write", "lane": lane, "h": alias, "data": d, "from": lo, "to": hi, "all": all_}
         if hi - lo <= 4096 and rng.random() < 0.12:
             w["vectored"] = rng.choice([1, 2, 3])       # Write::write_vectored instead of write
+        elif hi - lo > 0 and rng.random() < (0.08 if key else 0.2) and o.get("size") is None and not o.get("sri") and not key:
+            # (async lanes only: a write future polled once and dropped.  By-address writers only:
+            # with a key, the pinned tree records the ACKNOWLEDGED byte count as the entry's size
+            # while the content holds the cancelled chunk too - cancellation is outside the
+            # properties, so nothing is demanded about it beyond address = digest of the content)
+            w["cancel"] = True
         elif hi - lo > 0 and rng.random() < 0.15:
             # io::copy into the writer from a source that trickles (socket-like short reads)
             # (at most a few thousand reads: a one-byte trickle of megabytes through the async
@@ -335,6 +356,16 @@ def write_steps(rng, prog, lane, d, n, algo, key=None, how="oneshot", chunks=Non
             st.append({"op": "w_flush", "lane": lane, "h": alias})
     if rng.random() < 0.2:
         st.append({"op": "w_flush", "lane": lane, "h": alias})
+    if foreign_cwd:
+        # the writer was opened through a RELATIVE cache path (where the session uses such paths)
+        # and is committed after the process changed its working directory
+        s["force_rel"] = True
+        for w_ in st:
+            w_.pop("cancel", None)      # (what such a writer stored is read back from THIS cache)
+        st.append({"op": "chdir", "lane": lane, "to": "elsewhere"})
+        st.append({"op": "w_commit", "lane": lane, "h": alias, "elsewhere": True})
+        st.append({"op": "chdir", "lane": lane, "to": "base"})
+        return st
     st.append({"op": "w_commit", "lane": lane, "h": alias})
     return st
 
@@ -356,7 +387,8 @@ def roundtrip_program(rng, ncases, lanes=ALL_LANES, big=False, algos=ALGOS):
             opts["size"] = n                      # correctly declared size
         ch = rng.choice(chunkings(rng, n, big))
         prog["steps"] += write_steps(rng, prog, lane, d, n, algo, key, how, ch, opts, alias="w%d" % c,
-                                     all_=(rng.random() < 0.85))
+                                     all_=(rng.random() < 0.85),
+                                     foreign_cwd=(how != "oneshot" and not big and rng.random() < 0.12))
         # read back by key and by address through other entry points
         for _ in range(2):
             l2 = rng.choice(lanes)
@@ -1055,6 +1087,12 @@ def index_damage_program(rng, lanes=ALL_LANES, nrec=3, flips="sample", cuts="all
             dmgs.append({"mode": "glue", "index": i, "bytes": g.hex()})
         for bit in range(8):
             dmgs.append({"mode": "flip_nl", "index": i, "bit": bit})
+        # the checksum FIELD of a record shortened (from either end, down to nothing) or
+        # lengthened, the payload behind the tab left byte-exact
+        for (a_, b_) in ((0, 0), (0, 2), (0, 32), (0, 62), (0, 63), (2, 64), (1, 64), (63, 64), (64, 64)):
+            dmgs.append({"mode": "hash_field", "index": i, "keep": [a_, b_], "pad": ""})
+        for pad in ("00", "ab" * 32, " "):
+            dmgs.append({"mode": "hash_field", "index": i, "keep": [0, 64], "pad": pad})
     for i in range(nrec):
         dmgs.append({"mode": "dup_line", "index": i})
         dmgs.append({"mode": "drop_nl", "index": i})
@@ -1167,6 +1205,77 @@ def mixed_program(rng, lanes=ALL_LANES, nparts=4, scale=1):
             if q:
                 out["steps"].append(q.pop(0))
     return out
+
+
+def cancel_program(rng, lanes=("Aa", "Ta")):
+    """systematic: by-address async writers on which one write future is polled once and dropped
+    (first, middle or last chunk), then flushed or not, then committed: whatever the writer
+    then holds, the address it returns is the digest of the file stored under it"""
+    prog = {"keys": {}, "blobs": {}, "steps": []}
+    c = 0
+    for lane in lanes:
+        for n in (300, 70000):
+            for pat in ("first", "middle", "last"):
+                d = _mk_data(prog, rng, n)
+                a = "cw%d" % c
+                c += 1
+                cuts = [(0, n // 3), (n // 3, 2 * n // 3), (2 * n // 3, n)]
+                which = {"first": 0, "middle": 1, "last": 2}[pat]
+                prog["steps"].append({"op": "open_writer", "lane": lane, "opts": {"algo": rng.choice(["sha256", "sha1", "sha512"])},
+                                      "as": a, "plan": d, "via": "opts"})
+                for i, (lo, hi) in enumerate(cuts):
+                    w = {"op": "w_write", "lane": lane, "h": a, "data": d, "from": lo, "to": hi, "all": True}
+                    if i == which:
+                        w["cancel"] = True
+                    prog["steps"].append(w)
+                    if rng.random() < 0.3:
+                        prog["steps"].append({"op": "w_flush", "lane": lane, "h": a})
+                prog["steps"].append({"op": "w_commit", "lane": lane, "h": a})
+                prog["steps"].append({"op": "list", "lane": "S"})
+    return prog
+
+
+def fullfs_program(rng, lanes):
+    """A file system that is FULL for real (the co-processes of the session live on a small private
+    tmpfs; vf/session.py Driver(tmpfs=...)): every write entry point with data that no longer
+    fits - declared sizes (the preallocated / memory-mapped path), plain streams, one-shot calls,
+    raw index inserts, removals - then the same calls again after space was freed.  Total mode:
+    whatever a call answers, it answers (no SIGBUS on a page that cannot be backed, no abort)."""
+    prog = {"keys": {}, "blobs": {}, "steps": []}
+    small = _mk_data(prog, rng, 100)
+    big = _mk_data(prog, rng, 256 * 1024)
+    keys = [add_key(prog, "fullfs-%d-%d" % (i, rng.randrange(10 ** 6))) for i in range(6)]
+    prog["steps"].append({"op": "write", "lane": lanes[0], "key": keys[0], "data": small, "algo": "sha256"})
+
+    def attempts(tag):
+        st = []
+        for li, lane in enumerate(lanes):
+            st.append({"op": "write", "lane": lane, "key": keys[1], "data": big, "algo": "sha256"})
+            st.append({"op": "write", "lane": lane, "data": big, "algo": "sha256"})
+            for keyed in (True, False):
+                for declared in (True, False):
+                    a = "%s%d%d%d" % (tag, li, keyed, declared)
+                    o = {"algo": "sha256"}
+                    if declared:
+                        o["size"] = 256 * 1024
+                    s_ = {"op": "open_writer", "lane": lane, "opts": o, "as": a, "plan": big, "via": "opts"}
+                    if keyed:
+                        s_["key"] = keys[2]
+                    st += [s_, {"op": "w_write", "lane": lane, "h": a, "data": big, "from": 0, "to": 100000, "all": True},
+                           {"op": "w_write", "lane": lane, "h": a, "data": big, "from": 100000, "to": 256 * 1024, "all": True},
+                           {"op": "w_commit", "lane": lane, "h": a}]
+            st.append({"op": "write", "lane": lane, "key": keys[3], "data": small, "algo": "sha256"})
+            st.append({"op": "index_insert", "lane": lane, "key": keys[4], "opts": {"sri": [{"a": "sha256", "d": small}], "size": 100}})
+            st.append({"op": "remove", "lane": lane, "key": keys[0]})
+            st.append({"op": "metadata", "lane": lane, "key": keys[0]})
+            st.append({"op": "read", "lane": lane, "key": keys[3]})
+            st.append({"op": "list", "lane": lane})
+        return st
+    prog["steps"].append({"op": "fs_fill", "lane": lanes[0], "leave": rng.choice([0, 4096, 32768, 131072])})
+    prog["steps"] += attempts("f")
+    prog["steps"].append({"op": "fs_free", "lane": lanes[0]})
+    prog["steps"] += attempts("g")
+    return prog
 
 
 def with_lanes(prog, assign):
